@@ -35,6 +35,7 @@ def judgePlacedStream (r : Rec) : List (String × String) × List String := Id.r
       i := i + 7
       let capN : Nat := if cap < 0 then 0 else cap.toNat
       let a := FastX.adjust S addr data.size
+      if S.dctx.isSome && data.size > 0 then tags := (if data.size > 4096 then "xstream.attached_copy_path" else "xstream.attached_two_tables") :: tags
       if S.currentOffset + data.size > 0x80000000 then nRenorm := nRenorm + 1
       if a.2 then nPrefix := nPrefix + 1 else nExt := nExt + 1
       let ds1 := (FastX.renorm S data.size).dict.size
@@ -68,6 +69,13 @@ def judgePlacedStream (r : Rec) : List (String × String) × List String := Id.r
       if fails.isEmpty && ret != Int.ofNat res.2 then fails := [("model_stream_output_differs", s!"op {k} of {nops}: LZ4_loadDict({d.size}) returns {ret}, model {res.2}")]
       S := res.1
       tags := (if slow != 0 then "xstream.loadDictSlow" else "xstream.loadDict") :: tags
+    else if kind == 4 then
+      let addr := r.nat (i + 1)
+      let d := r.bytes (i + 2)
+      let slow := r.nat (i + 3)
+      i := i + 4
+      S := (FastX.step (fun s b => Fast.realHash s b) S (.attach addr d.data (slow != 0))).1
+      tags := "xstream.attach" :: tags
     else
       i := i + 1
       S := FastX.reset S
